@@ -224,6 +224,11 @@ def main():
     opts = []
     for o in ("RFC6531_FOLLOW_RFC5322", "RFC6531_FOLLOW_RFC20", "LABELS_ALLOW_UNDERSCORE"):
         on = make_defines([o + "=ON"]) - base_defs
+        # the option is the same option whichever IDN back end the library is built for
+        for be in ("idn", "idn2", "idnkit"):
+            on_be = make_defines(["FORCE_IDN=" + be, o + "=ON"]) - make_defines(["FORCE_IDN=" + be])
+            if on_be != on:
+                raise TieError("Makefile: %s=ON with FORCE_IDN=%s defines %r (without FORCE_IDN: %r)" % (o, be, sorted(on_be), sorted(on)))
         if len(on) != 1:
             raise TieError("Makefile: %s=ON defines %r" % (o, sorted(on)))
         opts.append((o, "ON" if o in base_defs else "OFF", "ON", sorted(on)[0]))
